@@ -10,8 +10,10 @@ fractions.Fraction / exact integers.
 Heap-mode contracts (contracts/fpnum.py, object allocation with a ghost `alloc` set): FPNum.add / sub / mul / neg compute the
 exact rational sum / difference / product / negation of finite operands and compare returns the order of the denoted
 rationals, through the renormalisation steps increase_exponent, increase_precision, set_semp, adjust_semp and the constructor
-(arities 0 and 4), each under its own contract; operands and every other existing object are left untouched.  The rationals
-are abstract in those proofs; the 15 axioms they use are proved as lemmas of real arithmetic (pvc/realsem.py) in every run."""
+(arities 0 and 4; arity 2 = from an IEEE-754 half / single / double bit pattern, which denotes (-1)**s * 2**(e-bias) * (1 + m/2**mw),
+subnormals 2**(1-bias) * m/2**mw, all-ones exponent infinity / NaN), each under its own contract; operands and every other existing object are left untouched.  The rationals
+are abstract in those proofs; the 15 axioms they use are proved as lemmas of real arithmetic (pvc/realsem.py) in every run.  FixedPoint.add / sub: the raw encoding of the (new) result is
+the sum / difference of the operands' raw encodings modulo 2**(sw+iw+fw), for symbolic formats; mult stays bounded."""
 import io, contextlib, random, struct, math, time
 from fractions import Fraction
 from pvc import run, work, leaf as L, heapverify as HV
@@ -25,7 +27,9 @@ FUNCS = ['IntegerHelper.signed_to_c2', 'IntegerHelper.c2_to_signed', 'IntegerHel
 
 
 HEAP_FUNCS = ['FPNum.increase_exponent', 'FPNum.increase_precision', 'FPNum.set_semp', 'FPNum.adjust_semp', 'FPNum.__init__/4',
-              'FPNum.__init__/0', 'FPNum.copy', 'FPNum.add', 'FPNum.sub', 'FPNum.mul', 'FPNum.neg', 'FPNum.compare']
+              'FPNum.__init__/0', 'FPNum.from_ieee754_hp', 'FPNum.from_ieee754_sp', 'FPNum.from_ieee754_dp',
+              'FPNum.__init__/2hp', 'FPNum.__init__/2sp', 'FPNum.__init__/2dp', 'FPNum.copy', 'FPNum.add', 'FPNum.sub', 'FPNum.mul', 'FPNum.neg', 'FPNum.compare',
+              'FixedPoint.intToFixedPoint', 'FixedPoint.__init__', 'FixedPoint.add', 'FixedPoint.sub']
 
 
 def heap_item(qual, timeout_s=30, **kw):
@@ -196,7 +200,7 @@ def main(tier, seed, only=None):
     return run.finish(PROP, tier, res, t0, level='proof', seed=seed,
                       functions=['py4hw/helper.py::' + f for f in FUNCS + HEAP_FUNCS],
                       assumptions=[common.dropped_note(), 'Python ints are mathematical integers',
-                                   'proof level covers the integer helpers, the field packers and the exact arithmetic / order of FPNum (add, sub, mul, neg, compare, constructor, renormalisation); float-valued helpers, FPNum.from_ieee754_* / convert / to_float / div / sqrt / reducePrecision* and FixedPoint methods are the bounded parts below (struct / Fraction oracles)',
+                                   'proof level covers the integer helpers, the field packers and the exact arithmetic / order of FPNum (add, sub, mul, neg, compare, constructor, renormalisation); float-valued helpers, FPNum.convert / to_float / div / sqrt / reducePrecision*, FixedPoint.mult and the float-to-fixed conversion are the bounded parts below (struct / Fraction oracles)',
                                    'FPNum contracts: operands are finite well-formed numbers (precision a power of two, mantissa >= 0, sign +-1, not NaN / infinity) -- what the constructors establish; NaN / infinity branches are executed but carry no postcondition; field values are Python ints (isinstance(m, int) taken as true: the model has no floats); termination of the renormalisation loops is not proved (partial correctness)',
                                    'abstract rationals: val / qadd / qsub / qmul / qneg / qcmp are uninterpreted in the heap proofs; the axioms about them (contracts/fpnum.py::AXIOMS) are proved in real arithmetic under val = s * 2**e * m / p in every run (axiom::*), from three trusted schemata for 2**e (recurrence, strict monotonicity, 2**(a+b) = 2**a * 2**b) and positivity',
                                    'a new object is distinct from None, from the reference arguments and from every object that existed before (ghost alloc set); mul: products of two symbolic terms are abstracted to an uninterpreted function with sign / unit / commutativity facts',
